@@ -4,7 +4,7 @@ from fractions import Fraction
 from world import amounts, enc_f64, f64_from_bits, f64_bits, f64_next, frac_to_f64
 
 ID = "C15"
-LEAN_MODULES = ["QtyModel.Props.C15", "QtyModel.Props.C15Dec", "QtyModel.Props.C15F64", "QtyModel.Props.TieFmt"]
+LEAN_MODULES = ["QtyModel.Props.C15", "QtyModel.Props.C15Dec", "QtyModel.Props.C15F64", "QtyModel.Props.C15RoundTrip", "QtyModel.Props.TieFmt"]
 HARNESS_GROUPS = ('g_rate',)
 RATE_TYPES = ["Length", "Duration", "Mass", "DataVolume", "Temperature", "AmountT", "S:Su", "S:Sn", "S:Sa"]
 FILLS = ["n", "s", "z", "u", "e", "w"]
